@@ -135,12 +135,44 @@ def decode (store : Bytes) (ty off cnt : Nat) : Out IndexData :=
   | 9 => (rdStrings cnt rem).map .i18n
   | _ => .err "tagtype"
 
-def decodeAll (store : Bytes) : List (Nat × Nat × Nat × Nat) → Out (List Entry)
-  | [] => pure []
-  | (tag, ty, off, cnt) :: r => do
+/-- bytes the loop of a STRING_ARRAY / I18NSTRING entry has consumed when it ends normally (`available - remaining.len()`):
+every string and its terminator -/
+def strConsumed : Nat → Bytes → Nat
+  | 0, _ => 0
+  | k + 1, bs =>
+    match (takeTill0 bs).2 with
+    | [] => 0
+    | _ :: rest' => (takeTill0 bs).1.length + 1 + strConsumed k rest'
+
+/-- `used` of the second loop of `parse_header`: the store bytes the entry's data occupies, as the code computes it from
+what it has just decoded — the vector's length (× 2 / 4 / 8 for numbers), the string and its terminator (never more than
+is there: a string may run to the end of the store), the bytes the string loop went over -/
+def decodeUsed (store : Bytes) (off cnt : Nat) : IndexData → Nat
+  | .null => 0
+  | .char d => d.length
+  | .int8 d => d.length
+  | .int16 l => 2 * l.length
+  | .int32 l => 4 * l.length
+  | .int64 l => 8 * l.length
+  | .str _ => Nat.min ((takeTill0 (store.drop off)).1.length + 1) (store.length - off)
+  | .bin d => d.length
+  | .strArray _ => strConsumed cnt (store.drop off)
+  | .i18n _ => strConsumed cnt (store.drop off)
+
+/-- the second loop of `parse_header` with its byte budget: every entry's data is decoded, then its `used` bytes are
+taken off the budget (`budget.checked_sub(used)`), which starts as the length of the data section; going below zero is
+`Error::Nom` (entries that share store bytes — every entry gets its own decoded copy) -/
+def decodeAllB (store : Bytes) : Nat → List (Nat × Nat × Nat × Nat) → Out (List Entry)
+  | _, [] => pure []
+  | budget, (tag, ty, off, cnt) :: r => do
     let d ← decode store ty off cnt
-    let es ← decodeAll store r
+    if decodeUsed store off cnt d > budget then .err "overlap" else
+    let es ← decodeAllB store (budget - decodeUsed store off cnt d) r
     pure (⟨tag, d, off, cnt⟩ :: es)
+
+/-- `let mut budget = bytes.len();` and the loop -/
+def decodeAll (store : Bytes) (raws : List (Nat × Nat × Nat × Nat)) : Out (List Entry) :=
+  decodeAllB store store.length raws
 
 /-- `Header::parse`: intro (16 bytes), then exactly `dl + 16 n` bytes, then `parse_header`.
 Returns the header and the unread rest of the input. -/
@@ -195,13 +227,19 @@ def IndexData.keptBytes : IndexData → Nat
 /-- heap data a `Header` value keeps besides its store: the decoded copy of every entry's data -/
 def Header.keptBytes (h : Header) : Nat := (h.entries.map fun e => e.data.keptBytes).sum
 
-/-- the `decode` calls the second loop of `parse_header` makes: it returns at the first entry it rejects -/
-def decodeCalls (store : Bytes) : List (Nat × Nat × Nat × Nat) → List (Nat × Nat × Nat × Nat)
-  | [] => []
-  | (tag, ty, off, cnt) :: r =>
+/-- the `decode` calls the second loop of `parse_header` makes: it returns at the first entry it rejects — because its
+data does not decode, or because the budget does not cover it (that entry WAS decoded) -/
+def decodeCallsB (store : Bytes) : Nat → List (Nat × Nat × Nat × Nat) → List (Nat × Nat × Nat × Nat)
+  | _, [] => []
+  | budget, (tag, ty, off, cnt) :: r =>
     match decode store ty off cnt with
-    | .ok _ => (tag, ty, off, cnt) :: decodeCalls store r
+    | .ok d =>
+      if decodeUsed store off cnt d > budget then [(tag, ty, off, cnt)]
+      else (tag, ty, off, cnt) :: decodeCallsB store (budget - decodeUsed store off cnt d) r
     | _ => [(tag, ty, off, cnt)]
+
+def decodeCalls (store : Bytes) (raws : List (Nat × Nat × Nat × Nat)) : List (Nat × Nat × Nat × Nat) :=
+  decodeCallsB store store.length raws
 
 /-- bytes of the `String`s a string-array entry has pushed when its loop ends — by reaching the count, or by meeting a
 string without terminator (the entry is then rejected, but the strings before it were built) -/
@@ -221,13 +259,18 @@ def decodePartial (store : Bytes) (ty off cnt : Nat) : Nat :=
   | 9 => stringsPushed cnt (store.drop off)
   | _ => 0
 
-/-- decoded bytes alive when the second loop ends (normally or by rejection) -/
-def keptOfCalls (store : Bytes) : List (Nat × Nat × Nat × Nat) → Nat
-  | [] => 0
-  | (_, ty, off, cnt) :: r =>
+/-- decoded bytes alive when the second loop ends (normally or by rejection; the entry the budget refuses has been
+decoded and is alive when the error is made) -/
+def keptOfCallsB (store : Bytes) : Nat → List (Nat × Nat × Nat × Nat) → Nat
+  | _, [] => 0
+  | budget, (_, ty, off, cnt) :: r =>
     match decode store ty off cnt with
-    | .ok d => d.keptBytes + keptOfCalls store r
+    | .ok d =>
+      if decodeUsed store off cnt d > budget then d.keptBytes
+      else d.keptBytes + keptOfCallsB store (budget - decodeUsed store off cnt d) r
     | _ => decodePartial store ty off cnt
+
+def keptOfCalls (store : Bytes) (raws : List (Nat × Nat × Nat × Nat)) : Nat := keptOfCallsB store store.length raws
 
 /-- index entries the first loop of `parse_header` has pushed when it ends (it stops at an unknown data type) -/
 def rawPushed : Nat → Bytes → Nat
@@ -394,7 +437,7 @@ def parsePackageAcct (bs : Bytes) : PkgAcct :=
     | _ => ⟨[], 0⟩
   | _ => ⟨[], 0⟩
 
-/-- decoded entry data the package value keeps (the part that is not linear in the input) -/
+/-- decoded entry data the package value keeps (at most 48 bytes per input byte per header: `C04.kept_le_linear`) -/
 def PkgAcct.dataKept (p : PkgAcct) : Nat := (p.headers.map fun a => a.kept).sum
 /-- bytes the parsed value keeps: stores, entry values, decoded data, content (a lower bound of the real heap use:
 capacities are at least lengths) -/
